@@ -21,7 +21,9 @@ import (
 	"sync"
 	"time"
 
+	"github.com/BondMachineHQ/BondMachine/pkg/bmnumbers"
 	"github.com/BondMachineHQ/BondMachine/pkg/bondmachine"
+	"github.com/BondMachineHQ/BondMachine/pkg/procbuilder"
 	"github.com/BondMachineHQ/BondMachine/pkg/simbox"
 
 	"verif/harness/bmgen"
@@ -147,11 +149,60 @@ func c17Child(outPath string) int {
 			panic(err)
 		}
 	}, 1)
+	// a call that is rejected during set-up (an input record the machine cannot take) must not
+	// leave workers behind either; mixed with good calls as a batch tool would see them
+	bad := 0
+	series("SinglePipelineSimulate-rejected-input", func() {
+		bm := mk()
+		bad++
+		in := []string{}
+		switch bad % 3 {
+		case 0:
+			in = []string{"1", "2", "3"} // more values than the machine has inputs
+		case 1:
+			in = []string{"n/a"} // not a number
+		}
+		bm.SinglePipelineSimulate("unsigned", in, nil)
+	}, 1)
 	series("basm-assembly", func() {
 		if _, _, err := bmgen.AssembleBasm(lifeBasm); err != nil {
 			panic(err)
 		}
 	}, 1)
+	// retained simulator state: the process-wide registries must not grow with the number of
+	// finished simulations (measured after a warm-up call that may legitimately register a type)
+	dual := func() *bondmachine.Bondmachine {
+		bm := newBM(8)
+		p, err := mkMachine(8, 2, 0, 2, 0, []string{"inc", "r2o", "r2owa", "j"}, "inc r0\nr2o r0 o0\ninc r0\nr2owa r0 o1\nj 0\n")
+		if err != nil {
+			panic(err)
+		}
+		addProc(bm, p)
+		bm.Add_output()
+		bm.Add_output()
+		bm.Add_bond([]string{"o0", "p0o0"})
+		bm.Add_bond([]string{"o1", "p0o1"})
+		return bm
+	}
+	regSize := func() int { return len(bmnumbers.AllTypes) + len(bmnumbers.AllMatchers) + len(procbuilder.Allopcodes) }
+	for _, ty := range []string{"fps8f2", "unsigned", "fxps8f3", "fps8f4"} {
+		if _, err := dual().SinglePipelineSimulate(ty, []string{}, nil); err != nil {
+			fmt.Fprintf(os.Stderr, "SinglePipelineSimulate(%s): %v\n", ty, err)
+			return 2
+		}
+		g0 := regSize()
+		enc.Encode(lifeEvent{Ev: "series", Kind: "retained-registries:" + ty, G0: g0, Bound: 0})
+		done := 0
+		for _, target := range counts {
+			for done < target {
+				if _, err := dual().SinglePipelineSimulate(ty, []string{}, nil); err != nil {
+					panic(err)
+				}
+				done++
+			}
+			enc.Encode(lifeEvent{Ev: "sample", N: done, G: regSize(), ByEntry: map[string]int{"bmnumbers.AllTypes": len(bmnumbers.AllTypes), "bmnumbers.AllMatchers": len(bmnumbers.AllMatchers), "procbuilder.Allopcodes": len(procbuilder.Allopcodes)}})
+		}
+	}
 	return 0
 }
 
@@ -231,7 +282,7 @@ func runC17(r *evid.Run) {
 		}
 		kind := evs[start].Kind
 		e := evs[line-1]
-		r.Violate("leak:"+kind, fmt.Sprintf("after %d calls of %s %d goroutines are alive, %d before the first call: growth is not bounded by a constant (leaked by creator: %v)", e.N, kind, e.G, evs[start].G0, e.ByEntry),
+		r.Violate("leak:"+kind, fmt.Sprintf("after %d calls of %s the count is %d, it was %d before the first call: growth is not bounded by a constant (breakdown: %v)", e.N, kind, e.G, evs[start].G0, e.ByEntry),
 			map[string]interface{}{"series": kind, "before": evs[start], "sample": e})
 	}
 	if vres.Violation != "" || !strings.Contains(vres.Stdout, "No error has been found") {
